@@ -127,44 +127,71 @@ POST = {"call": ["raise_exhausted_call(state, policy)"],
 
 # helpers whose meaning PyIRL.v / Runner.v fix: sha256 of their unparsed statements (printed by `python pyir_loop.py --pins`)
 PINS = {
-    "runner/logic.py:should_classify_result": "38a22b30c9577e7d",
-    "runner/logic.py:determine_action_from_outcome": "c81f8afbbaa62421",
-    "runner/logic.py:handle_abort_in_call": "07d65e494188ac07",
-    "runner/logic.py:emit_success": "888b2bf88286e1e7",
-    "runner/logic.py:emit_max_attempts_exceeded": "39080ea94ddbbcae",
-    "runner/logic.py:raise_exhausted_call": "77d745237e1d6443",
-    "runner/logic.py:build_exhausted_outcome": "e017dae5ade86854",
-    "runner/logic.py:raise_scheduled": "8a11354d08dcc2e2",
-    "retry_helpers.py:_build_outcome": "3fdcf79bcc2ccd48",
-    "retry_helpers.py:_abort_outcome": "bf6206c8be6415ca",
-    "retry_helpers.py:_call_attempt_end_from_outcome": "a93b5b714a9f4097",
-    "state.py:_RetryState.__init__": "9f427f4c87d14c29",
-    "state.py:_RetryState.check_abort": "2610334d9bec7285",
-    "state.py:_RetryState.elapsed": "740efcc5cadd83e3",
-    "state.py:_RetryState.emit": "657de99d7f0d6640",
-    "state.py:_RetryState.record_failure": "a77b891670b3b631",
-    "state.py:_RetryState.record_success": "581ce65e4b957860",
-    "state.py:_RetryState.handle_exception": "79f9f0067ffa5bd0",
-    "state.py:_RetryState.handle_result": "1f468eb12a487206",
-    "state.py:_build_backoff_context": "778373a550722f47",
-    "runner/sync_core.py:_handle_abort_attempt_end": "8839634ab63a8b78",
-    "runner/sync_core.py:_handle_success_attempt_end": "03aa26ef696e443c",
-    "runner/async_core.py:_handle_abort_attempt_end": "8839634ab63a8b78",
-    "runner/async_core.py:_handle_success_attempt_end": "03aa26ef696e443c",
+    "runner/logic.py:should_classify_result": "4d9d992ac006a14b",
+    "runner/logic.py:determine_action_from_outcome": "feb2e3c421de8abd",
+    "runner/logic.py:handle_abort_in_call": "e50b03b4f8b57715",
+    "runner/logic.py:emit_success": "cdf7feffc4d4d603",
+    "runner/logic.py:emit_max_attempts_exceeded": "17d7d3d702b987c5",
+    "runner/logic.py:raise_exhausted_call": "98ce01d50c8444c6",
+    "runner/logic.py:build_exhausted_outcome": "d3937f3e80d8164d",
+    "runner/logic.py:raise_scheduled": "4079ec91075df163",
+    "retry_helpers.py:_build_outcome": "0b2f3fd7d8caaf49",
+    "retry_helpers.py:_abort_outcome": "262c7efe7f3255ce",
+    "retry_helpers.py:_call_attempt_end_from_outcome": "ee7c312dd2796e0e",
+    "retry_helpers.py:_resolve_sleep": "4e8408b411b1131b",
+    "retry_helpers.py:_resolve_before_sleep": "48c0e43c896b25b0",
+    "retry_helpers.py:_resolve_sleeper": "6310e0d7073776dd",
+    "retry_helpers.py:_resolve_attempt_hooks": "080a1f18a3bef8d7",
+    "retry_helpers.py:_call_attempt_start": "1a71ddaeb71963a7",
+    "retry_helpers.py:_call_attempt_end": "ad54ac76b0ac6fa8",
+    "state.py:_RetryState.__init__": "00607feb99a36686",
+    "state.py:_RetryState.check_abort": "1ff6cf3850e930e9",
+    "state.py:_RetryState.elapsed": "24d14ec31b37eec2",
+    "state.py:_RetryState.emit": "f96e3486d871c7bb",
+    "state.py:_RetryState.record_failure": "2125a9cb5b3e0bcc",
+    "state.py:_RetryState.record_success": "27122d2b3b615707",
+    "state.py:_RetryState.handle_exception": "4ba40371aaff73c4",
+    "state.py:_RetryState.handle_result": "40ca13e08c6d2b9c",
+    "state.py:_build_backoff_context": "38781671ec133891",
+    "base.py:_BaseRetryPolicy.__init__": "d911b89412b259e3",
+    "base.py:_BaseRetryPolicy._select_strategy": "cb62595f0566a4b0",
+    "base.py:_normalize_classification": "4ce35267d71b056c",
+    "retry_sync.py:Retry.call": "d12485df576a91bc",
+    "retry_sync.py:Retry.execute": "1a272e85334afa45",
+    "retry_async.py:AsyncRetry.call": "685089d83417f418",
+    "retry_async.py:AsyncRetry.execute": "e12b75f8d95762bb",
+    "runner/sync_runner.py:run_sync_call": "e542b1687f52a1e4",
+    "runner/sync_runner.py:run_sync_execute": "c986cae6e7619139",
+    "runner/async_runner.py:run_async_call": "2f91eae5d661108f",
+    "runner/async_runner.py:run_async_execute": "4fd687721fe0e280",
+    "runner/timeline.py:_TimelineCollector.__init__": "63986920bb359eab",
+    "runner/timeline.py:_TimelineCollector.record": "8596ce458d9f9d91",
+    "runner/timeline.py:_resolve_timeline": "5cf53cf529e6db62",
+    "runner/sync_core.py:_handle_abort_attempt_end": "6aaf6286d3ebf8e7",
+    "runner/sync_core.py:_handle_success_attempt_end": "254d541d66e629c7",
+    "runner/async_core.py:_handle_abort_attempt_end": "6aaf6286d3ebf8e7",
+    "runner/async_core.py:_handle_success_attempt_end": "254d541d66e629c7",
 }
 
 
 def helper_digest(f):
-    return hashlib.sha256(body_text(f).encode()).hexdigest()[:16]
+    return hashlib.sha256((u(f.args) + "\n" + body_text(f)).encode()).hexdigest()[:16]
 
 
 HELPERS = {"runner/logic.py": ["should_classify_result", "determine_action_from_outcome", "handle_abort_in_call", "emit_success",
                                "emit_max_attempts_exceeded", "raise_exhausted_call", "build_exhausted_outcome", "raise_scheduled"],
-           "retry_helpers.py": ["_build_outcome", "_abort_outcome", "_call_attempt_end_from_outcome"],
+           "retry_helpers.py": ["_build_outcome", "_abort_outcome", "_call_attempt_end_from_outcome", "_resolve_sleep", "_resolve_before_sleep",
+                                "_resolve_sleeper", "_resolve_attempt_hooks", "_call_attempt_start", "_call_attempt_end"],
            # the state operations every translated fragment (PyIRF, PyIRS, PyIRL) reads as Runner.v's emit / check_abort / ...
            "state.py": ["_RetryState.__init__", "_RetryState.check_abort", "_RetryState.elapsed", "_RetryState.emit",
                         "_RetryState.record_failure", "_RetryState.record_success", "_RetryState.handle_exception",
                         "_RetryState.handle_result", "_build_backoff_context"],
+           # construction of the policy object and the public entry points that resolve call-level against policy-level
+           # callbacks (Runner.resolve) and start the loops
+           "base.py": ["_BaseRetryPolicy.__init__", "_BaseRetryPolicy._select_strategy", "_normalize_classification"],
+           "retry_sync.py": ["Retry.call", "Retry.execute"],
+           "retry_async.py": ["AsyncRetry.call", "AsyncRetry.execute"],
+           "runner/sync_runner.py": None, "runner/async_runner.py": None, "runner/timeline.py": None,
            "runner/sync_core.py": ["_handle_abort_attempt_end", "_handle_success_attempt_end"],
            "runner/async_core.py": ["_handle_abort_attempt_end", "_handle_success_attempt_end"]}
 
@@ -206,7 +233,7 @@ def pins(repo_src):
     out = {}
     for rel, names in HELPERS.items():
         fs = functions(os.path.join(base, rel))
-        for n in names:
+        for n in (sorted(fs) if names is None else names):
             if n not in fs:
                 raise TranslationError(f"{rel}: {n} missing")
             out[f"{rel}:{n}"] = helper_digest(fs[n])
